@@ -34,7 +34,11 @@ func libGraphFromEG(g *EG, rep string) graph.Graph {
 	}
 	e := make([]byte, g.N*(g.N-1)/2)
 	for _, x := range g.Edges {
-		e[x[1]*(x[1]-1)/2+x[0]] = 1
+		i := x[1]*(x[1]-1)/2 + x[0]
+		e[i] = 1
+		if rep == "dense-bytes" { // arbitrary non-zero indicator bytes: a valid DenseGraph (the library tests > 0)
+			e[i] = byte(2 + (i*37)%254)
+		}
 	}
 	return graph.NewDense(g.N, e)
 }
@@ -422,7 +426,56 @@ func evalMultiMultiple(cc codecCase, pool []*EG) *Failure {
 			return mk("wrong-graph", fmt.Sprintf("record %d: %s want %s", i, got.key(), want[i].key()))
 		}
 	}
+	// the decoded graphs are separate values: growing and editing one must leave the others equal to their records
+	for i := range gs {
+		all := make([]int, gs[i].N())
+		for v := range all {
+			all[v] = v
+		}
+		if msg, p := try(func() {
+			gs[i].AddVertex(all)
+			gs[i].AddVertex(nil)
+			if gs[i].N() >= 2 {
+				gs[i].RemoveEdge(0, 1)
+			}
+		}); p {
+			return mk("decoded-graph-cannot-be-edited", msg)
+		}
+		for j := range gs {
+			if j == i {
+				continue
+			}
+			got, prob := egFromLib(gs[j])
+			wantj := want[j]
+			if j < i { // already edited above: rebuild what it must be now
+				wantj = editedLikeAbove(want[j])
+			}
+			if prob != "" || got.key() != wantj.key() {
+				return mk("decoded-graphs-share-storage", fmt.Sprintf("after editing decoded graph %d, decoded graph %d is %s %s, want %s", i, j, got.key(), prob, wantj.key()))
+			}
+		}
+	}
 	return nil
+}
+
+// editedLikeAbove applies AddVertex(all), AddVertex(nil), RemoveEdge(0,1) to the model graph.
+func editedLikeAbove(g *EG) *EG {
+	h := &EG{N: g.N + 2}
+	for _, e := range g.Edges {
+		h.Edges = append(h.Edges, e)
+	}
+	for v := 0; v < g.N; v++ {
+		h.Edges = append(h.Edges, [2]int{v, g.N})
+	}
+	kept := h.Edges[:0]
+	for _, e := range h.Edges {
+		if !(e[0] == 0 && e[1] == 1) {
+			kept = append(kept, e)
+		}
+	}
+	h.Edges = kept
+	h.norm()
+	return h
 }
 
 func multiPool() []*EG {
@@ -514,7 +567,7 @@ func runC07(c *Ctx) {
 				for _, codec := range []string{"graph6", "sparse6", "multicode"} {
 					reps := []string{"dense"}
 					if n <= 5 {
-						reps = append(reps, "sparse")
+						reps = append(reps, "sparse", "dense-bytes")
 					}
 					for _, rep := range reps {
 						cc := codecCase{Codec: codec, N: n, Edges: g.Edges, Rep: rep}
@@ -538,6 +591,9 @@ func runC07(c *Ctx) {
 					cc2 := cc
 					cc2.Rep = "sparse"
 					c.Check(func() *Failure { return evalCodec(cc2) })
+					cc3 := cc
+					cc3.Rep = "dense-bytes"
+					c.Check(func() *Failure { return evalCodec(cc3) })
 					c.Nontrivial(1)
 				}
 			}
